@@ -46,7 +46,7 @@ def enum_members(width: int, tag: str, order="zero_first", cap=12):
         out = [v for v in out if v in keep][:cap]
     if order == "zero_last":
         out = out[1:] + out[:1]
-    return tuple(("E%s_V%d" % (tag, v), v) for v in out)
+    return tuple(("E%sV%d" % (tag.upper(), v), v) for v in out)
 
 
 @dataclass
@@ -75,7 +75,7 @@ class CaseBuilder:
 
     def fresh(self, prefix):
         self.n += 1
-        return "%s%s_%d" % (prefix, self.cid, self.n)
+        return "%s%sn%d" % (prefix, self.cid, self.n)
 
     def place(self, d, placement: str):
         """Return the Named reference to `d` as seen from inside the message under test."""
